@@ -850,7 +850,11 @@ def shrink_scenario(sc):
         yield c
     for j in range(len(sc['listeners'])):
         c = copy.deepcopy(sc)
+        gone = c['listeners'][j]['id']
         del c['listeners'][j]
+        # (aliases of the dropped listener's callable go with it)
+        c['listeners'] = [l for l in c['listeners']
+                          if l.get('cb', l['id']) != gone]
         finish(c)
         yield c
     for key in ('history', 'writes'):
